@@ -7,6 +7,7 @@ import (
 	"sync"
 	"sync/atomic"
 	"testing"
+	"time"
 
 	"pgregory.net/rapid"
 
@@ -60,6 +61,59 @@ func TestC14(t *testing.T) {
 				plans[ci] = append(plans[ci], c)
 			}
 		}
+		// hostile neighbours: connections that send truncated or garbled requests and
+		// vanish, over and over, while the others work; nothing of that may leak into them
+		hostile := rapid.SampledFrom([]int{0, 0, 1, 3}).Draw(t, "hostileConnections")
+		var hostileInputs [][]byte
+		for hi := 0; hi < hostile*4; hi++ {
+			var stream []byte
+			for j := rapid.IntRange(1, 3).Draw(t, "hostilePipeline"); j > 0; j-- {
+				c := genWireCmd(t, binary)
+				if len(c.Value) > 2000 {
+					c.Value = c.Value[:2000]
+				}
+				if c.Kind == wire.Quit {
+					c.Kind = wire.Noop
+				}
+				// private keys of nobody: keep the hostile traffic off the other connections' data
+				if c.Key != "" {
+					c.Key = "hostile-" + c.Key[:min(len(c.Key), 20)]
+				}
+				for ki := range c.Keys {
+					c.Keys[ki] = "hostile-" + c.Keys[ki][:min(len(c.Keys[ki]), 20)]
+				}
+				stream = append(stream, encodeCmd(binary, c)...)
+			}
+			if rapid.Bool().Draw(t, "hostileTruncate") {
+				stream = stream[:rapid.IntRange(1, len(stream)).Draw(t, "hostileCut")]
+			} else {
+				stream, _ = mutate(t, binary, stream)
+			}
+			if hugeDeclaration(binary, stream) || len(stream) == 0 {
+				stream = []byte("get\r\n")
+			}
+			hostileInputs = append(hostileInputs, stream)
+		}
+		stopHostile := make(chan struct{})
+		var hwg sync.WaitGroup
+		for hi := 0; hi < hostile; hi++ {
+			hwg.Add(1)
+			go func(hi int) {
+				defer hwg.Done()
+				for round := 0; round < 60; round++ { // bounded: every round costs the server three sockets for a moment
+					select {
+					case <-stopHostile:
+						return
+					default:
+					}
+					conn := st.Dial(0)
+					conn.Write(hostileInputs[(hi*4+round)%len(hostileInputs)])
+					time.Sleep(time.Duration(100+round%7*50) * time.Microsecond)
+					conn.Close()
+					time.Sleep(3 * time.Millisecond)
+				}
+			}(hi)
+		}
 		var wg sync.WaitGroup
 		problems := make([]string, conns)
 		var inflight, overlapped, failedCond, timedOut int64
@@ -97,6 +151,8 @@ func TestC14(t *testing.T) {
 		}
 		close(start)
 		wg.Wait()
+		close(stopHostile)
+		hwg.Wait()
 		if timedOut > 0 {
 			undecided(t, rec, fmt.Sprintf("C14 %s: %d connections waited more than two minutes for a reply", cfg, timedOut))
 		}
@@ -107,7 +163,7 @@ func TestC14(t *testing.T) {
 			}
 		}
 		nt := overlapped > 0 && failedCond > 0
-		rec.Case(nt, fmt.Sprintf("%s|%v|%d|%v", cfg, binary, conns, plans), "cfg:"+cfg.String(), fmt.Sprintf("connections=%d", conns), fmt.Sprintf("gomaxprocs=%d", procs))
+		rec.Case(nt, fmt.Sprintf("%s|%v|%d|%v|%d", cfg, binary, conns, plans, hostile), "cfg:"+cfg.String(), fmt.Sprintf("connections=%d", conns), fmt.Sprintf("gomaxprocs=%d", procs), fmt.Sprintf("hostile-neighbours=%d", hostile))
 		if rec.WantSample(nt) {
 			rec.Sample(nt, map[string]interface{}{"config": cfg.String(), "binary": binary, "connections": conns, "steps_each": steps, "gomaxprocs": procs, "commands_in_flight_together": overlapped, "connection0": cmdsString(plans[0])})
 		}
